@@ -1024,6 +1024,15 @@ def nat_single_densities_weighted_k(rng):
     e1 = float(get_Esic(scf, Y, n_single=ns))
     e2 = float(get_Esic(scf, Y, n_single=ns))
     worst = max(worst, abs(e1 - e0) / abs(e0), abs(e2 - e0) / abs(e0), float(np.abs(np.asarray(ns) - keep).max()))
+    # a second set of orbitals on the SAME SCF object (as for SCDM- / FLO-SIC after a run): the energy is the one of the orbitals handed in
+    Y2 = orth(a, [rnd(rng, 1, len(a.Gk2c[0]), a.occ.Nstate)])
+    e_second = float(get_Esic(scf, Y2))
+    fresh = SCF(at, xc="pbe", verbose="critical")
+    fresh.Y = Y2
+    e_fresh = float(get_Esic(fresh, Y2))
+    if abs(e_fresh - e0) < 1e-6 * abs(e0):
+        raise RuntimeError("harness: the two orbital sets give the same self-interaction energy")
+    worst = max(worst, abs(e_second - e_fresh) / abs(e_fresh))
     return worst
 
 
@@ -1034,3 +1043,46 @@ register(Obligation(name="C16.get_n_single_get_Esic.unequal_kpoint_weights", pro
                     run=BoundedNative(nat_single_densities_weighted_k, 1, tol=1e-9, what="single-orbital densities and the one-electron SIC energy with unequal k-point weights (trs-reduced mesh, hand-made set)"),
                     budget={"quick": 300, "thorough": 600},
                     doc="BOUNDED: get_n_single = sum_k wk f |psi_k|^2 and |Esic| = |E_H[n] + E_xc[n, 0]| for one electron with unequal k-point weights"))
+
+
+# ------------------------------------------------------------------------------------------------
+# bounded: the localisers under the Torch array backend (the package default when torch is importable)
+# ------------------------------------------------------------------------------------------------
+
+
+def nat_localizers_torch(rng):
+    """get_wannier (several iterations, random start), get_scdm and the WO / SCDM wrappers with the Torch backend: orthonormal to 1e-10 and the density of the
+    occupied space reproduced (this is the property under the package's default backend, not a comparison of backends)."""
+    import eminus
+    from eminus import SCF, Atoms
+    from eminus import backend as xp
+    from eminus.dft import get_psi
+    from eminus.localizer import get_scdm, get_wannier
+    from eminus.orbitals import SCDM, WO
+
+    eminus.config.backend = "torch"
+    if eminus.config.backend != "torch":
+        raise RuntimeError("harness: the torch backend is not available")
+    eminus.config.verbose = "critical"
+    try:
+        at = Atoms("CH4", [[0, 0, 0], [1.2, 1.2, 1.2], [-1.2, -1.2, 1.2], [1.2, -1.2, -1.2], [-1.2, 1.2, -1.2]], ecut=4, a=9, center=True)
+        scf = SCF(at, opt={"sd": 3}, etol=1e-12)
+        scf.run()
+        at = scf.atoms
+        psi = get_psi(scf, scf.W)
+        psirs = at.I(psi)[0][0]
+        n0 = np.sum(np.abs(np.asarray(xp.to_np(psirs))) ** 2, axis=1)
+        worst = 0.0
+        outs = [get_wannier(at, psirs, Nit=6, random_guess=True, seed=int(rng.integers(1 << 30))), get_scdm(at, psi)[0][0], WO(scf)[0][0], SCDM(scf)[0][0]]
+        for out in outs:
+            o = np.asarray(xp.to_np(out))
+            worst = max(worst, float(np.abs(at.dV * o.conj().T @ o - np.eye(o.shape[1])).max()), float(np.abs(np.sum(np.abs(o) ** 2, axis=1) - n0).max() / np.abs(n0).max()))
+    finally:
+        eminus.config.backend = "numpy"
+    return worst
+
+
+register(Obligation(name="C16.localisers.torch_backend", prop=PROP, engine="B", bounded=True, functions=["eminus.localizer:get_wannier", "eminus.localizer:get_scdm", "eminus.orbitals:WO", "eminus.orbitals:SCDM"],
+                    run=BoundedNative(nat_localizers_torch, 1, tol=1e-8, what="Wannier / SCDM orbitals with the Torch backend: orthonormality and density of the occupied space"),
+                    budget={"quick": 300, "thorough": 600},
+                    doc="BOUNDED: Wannier and SCDM orbitals (functions and wrappers) under the Torch backend are orthonormal and density preserving to 1e-8 (measured 1e-10 on the unchanged tree)"))
